@@ -44,7 +44,7 @@ def gen_cases(rng, tier):
 def observe(c):
   d = lg.build(c['leaf'])
   s, p = np.array(fl(c['s'])), np.array(fl(c['p']))
-  return {'cost': fr(d.cost(s, p)), 'deriv': fr(np.array(d.deriv(s, p)).reshape(-1))}
+  return {'cost': fr(core.maybe_stale(c, d.cost, s, p)), 'deriv': fr(np.array(core.maybe_stale(c, d.deriv, s, p)).reshape(-1))}
 
 
 def coq_case(c, o):
